@@ -399,14 +399,14 @@ pub fn keys_for<F: Family>(tier: Tier, seed: u64) -> Vec<[u8; 40]> {
     let mut keys = key40s(seed, 2);
     if F::ID == "C07" {
         // rotating keys put every byte value at every key position
-        let n = tier.pick(16usize, 256usize);
+        let n = tier.pick(64usize, 256usize);
         for j in 0..n {
             keys.push(rotating_key((j * (256 / n)) as u8));
         }
     } else {
         // TBC: grow the session-key alphabet until the DERIVED keys have put every byte value at
         // every one of the 20 positions (thorough), or a fixed number (quick)
-        let target = tier.pick(64usize, usize::MAX);
+        let target = tier.pick(160usize, usize::MAX);
         let mut seen = vec![[false; 256]; 20];
         let mut missing = 20 * 256;
         let mut i = 0u64;
